@@ -245,7 +245,7 @@ proof fn ct_lemma_digit(xb: Seq<Limb>, y: Seq<Limb>, h: int, n: nat, yc: nat, xi
         let remv = h * bp(m) + val(xb, m);
         let qt = remv / dd;
         &&& dd == yv * bp((m - yc) as nat) &&& 0 < dd <= bp(m) &&& remv >= 0
-        &&& qt <= q <= qt + 1 &&& 0 <= qt <= B() - 1 &&& qt * dd <= remv < (qt + 1) * dd
+        &&& qt <= q <= qt + 1 &&& 0 <= qt <= B() - 1 &&& qt * dd <= remv < (qt + 1) * dd &&& 0 <= remv - qt * dd < dd
     })
 {
     let m = xi + 1;
@@ -294,6 +294,7 @@ proof fn ct_lemma_digit(xb: Seq<Limb>, y: Seq<Limb>, h: int, n: nat, yc: nat, xi
     lemma_mod_bound(remv, dd);
     assert(qt * dd <= remv < (qt + 1) * dd) by (nonlinear_arith)
         requires remv == dd * qt + remv % dd, 0 <= remv % dd < dd;
+    assert((qt + 1) * dd == qt * dd + dd) by (nonlinear_arith);
 }
 
 /// one step of the multiply-and-subtract loop (integer level)
@@ -362,6 +363,7 @@ proof fn ct_lemma_after_sub(remv: int, dd: int, q: int, qt: int, l: int, tt: int
     assert(tt >= 1 ==> tpt >= pt) by (nonlinear_arith) requires tpt == tt * pt, pt > 0;
     assert(tt <= B() - 2 ==> tpt <= bpt - 2 * pt) by (nonlinear_arith) requires tpt == tt * pt, bpt == B() * pt, pt > 0;
     assert(tpt >= 0) by (nonlinear_arith) requires tpt == tt * pt, tt >= 0, pt > 0;
+    assert(tpt <= bpt - pt) by (nonlinear_arith) requires tpt == tt * pt, bpt == B() * pt, tt <= B() - 1, pt > 0;
     assert(bbv == 0 ==> bbv * bpt == 0) by (nonlinear_arith);
     assert(bbv == 1 ==> bbv * bpt == bpt) by (nonlinear_arith);
     if q == qt {
